@@ -111,6 +111,205 @@ def cases_for(afi: int):
     return out
 
 
+# ---------------------------------------------------------------- flow and VPLS definitions
+
+VPLS_FAM = [(25, 65)]
+
+
+def vpls_cases():
+    """RFC 4761 NLRI: VE ID, VE block offset and VE block size are 16 bit fields, the label base a 20 bit label"""
+    out = []
+    base = {'endpoint': 5, 'base': 10702, 'offset': 1, 'size': 8}
+    table = {
+        'endpoint': [(0, True), (65535, True), (65536, False), (-1, False)],
+        'offset': [(0, True), (65535, True), (65536, False)],
+        'size': [(1, True), (65535, True), (65536, False)],
+        'base': [(16, True), (65535, True), (65536, True), (1048575 - 8, True), (1048576, False), (16777216, False)],
+    }
+    for field, vals in table.items():
+        for v, legal in vals:
+            d = dict(base)
+            d[field] = v
+            if field == 'size' and v > 8:
+                d['base'] = 16  # base + size stays a 20 bit label
+            if field == 'base' and legal:
+                d['size'] = 1
+            out.append({'kind': 'vpls', 'field': 'vpls-' + field, 'pos': str(v), 'legal': legal, 'vals': d})
+    return out
+
+
+def vpls_text(d: dict, surface: str) -> str:
+    words = f'endpoint {d["endpoint"]} base {d["base"]} offset {d["offset"]} size {d["size"]} rd 192.168.201.1:123 next-hop 192.168.201.1'
+    if surface == 'config':
+        return 'l2vpn {\n vpls ' + words + ';\n}\n'
+    return 'announce vpls ' + words
+
+
+def vpls_decode(nlri: bytes) -> dict:
+    import struct
+
+    ln, = struct.unpack('!H', nlri[:2])
+    if ln != 17 or len(nlri) != 19:
+        raise ValueError(f'VPLS NLRI length field {ln}, {len(nlri)} octets')
+    ve, off, size = struct.unpack('!HHH', nlri[10:16])
+    lab = int.from_bytes(nlri[16:19], 'big')
+    return {'endpoint': ve, 'offset': off, 'size': size, 'base': lab >> 4, 'rd': nlri[2:10].hex()}
+
+
+def flow_cases():
+    """numeric flow components: the value as written must be the value on the wire (RFC 8955 4.2.2: 1, 2, 4 or 8 octets)"""
+    out = []
+    table = {
+        'port': (3, [(0, True), (255, True), (256, True), (65535, True), (65536, None), (-1, False)]),
+        'destination-port': (5, [(65535, True), (65536, None)]),
+        'source-port': (6, [(65535, True), (65536, None)]),
+        'protocol': (3, [(0, True), (255, True), (256, None)]),
+        'packet-length': (10, [(0, True), (65535, True), (65536, None)]),
+        'dscp': (11, [(0, True), (63, True), (64, None), (256, None)]),
+        'icmp-type': (7, [(0, True), (255, True), (256, None)]),
+        'icmp-code': (8, [(255, True), (256, None)]),
+    }
+    table['port'] = (4, table['port'][1])
+    for kw, (ctype, vals) in table.items():
+        for v, legal in vals:
+            out.append({'kind': 'flow', 'field': 'flow-' + kw, 'pos': str(v), 'legal': legal, 'kw': kw, 'ctype': ctype, 'value': v, 'then': 'discard'})
+    # NLRI lengths around the switch from the one octet to the two octet length form (240) and around 256
+    for n in (77, 78, 79, 83, 84, 85):
+        for dst in ('10.0.0.0/8', '10.1.0.0/16', '10.1.2.0/24', '10.1.2.3/32'):
+            out.append({'kind': 'flow', 'field': 'flow-length', 'pos': f'{n}x{dst}', 'legal': True, 'kw': 'port', 'ctype': 4, 'values': [1000 + i for i in range(n)], 'dst': dst, 'then': 'discard'})
+    # traffic actions: the extended community must carry the numbers as written
+    for txt, legal in (('redirect 65535:4294967295', True), ('redirect 65535:4294967296', False), ('redirect 65536:65535', True), ('redirect 4294967295:65535', True),
+                       ('redirect 65536:65536', False), ('redirect 4294967296:1', False), ('mark 63', True), ('mark 64', None), ('mark 256', False), ('rate-limit 0', True), ('rate-limit -1', None)):
+        out.append({'kind': 'flow', 'field': 'flow-action', 'pos': txt, 'legal': legal, 'kw': 'destination-port', 'ctype': 5, 'value': 80, 'then': txt})
+    return out
+
+
+def flow_text(c: dict, surface: str) -> str:
+    if 'values' in c:
+        body = f'match {{ destination {c["dst"]}; {c["kw"]} [ {" ".join("=%d" % v for v in c["values"])} ]; }} then {{ {c["then"]}; }}'
+    else:
+        body = f'match {{ destination 10.0.0.0/24; {c["kw"]} ={c["value"]}; }} then {{ {c["then"]}; }}'
+    if surface == 'config':
+        return 'flow {\n route r1 { ' + body + ' }\n}\n'
+    return 'announce flow route { ' + body + ' }'
+
+
+def action_expected(txt: str):
+    """-> the 8 octet extended community RFC 8955 / 7674 give for a 'then' text (None: not judged)"""
+    import struct
+
+    w = txt.split()
+    if w[0] == 'redirect':
+        a, n = (int(x) for x in w[1].split(':'))
+        return (struct.pack('!BBHL', 0x80, 0x08, a, n) if a <= 65535 else struct.pack('!BBLH', 0x82, 0x08, a, n)).hex()
+    if w[0] == 'mark':
+        return (bytes([0x80, 0x09, 0, 0, 0, 0, 0]) + bytes([int(w[1])])).hex()
+    if w[0] == 'rate-limit':
+        return (bytes([0x80, 0x06, 0, 0]) + struct.pack('!f', float(w[1]))).hex()
+    return None
+
+
+def run_flow_vpls(res: Result, desc) -> None:
+    """flow and VPLS definitions at both surfaces; accepted ones encoded by the real generator and read back by independent decoders"""
+    from exabgp.bgp.message.update.collection import RoutedNLRI, UpdateCollection
+    from exabgp.reactor.api import API
+    from vlib.refwire import flow as rf
+
+    cases = [c for i, c in enumerate(flow_cases() + vpls_cases()) if i % desc['nshards'] == desc['shard']]
+    if not cases:
+        return
+    fams = [(1, 133), (25, 65)]
+    base = exa.neighbor_text(families=fams)
+    conf0 = exa.load_config(base)
+    nb = list(conf0.neighbors.values())[0]
+    from vlib import corpus
+
+    neg = corpus.mirror_session(nb)  # negotiated the production way, against a peer which offers the same families
+    api = API(None)
+    for c in cases:
+        for surface in ('config', 'api'):
+            text = flow_text(c, surface) if c['kind'] == 'flow' else vpls_text(c['vals'], surface)
+            cls = f'{c["field"]}:{ {True: "legal", False: "illegal", None: "beyond-rfc"}[c["legal"]] }:{surface}'
+            wit = {'text': text, 'field': c['field'], 'position': c['pos'], 'legal': c['legal'], 'surface': surface}
+            routes, err = [], ''
+            try:
+                if surface == 'config':
+                    try:
+                        conf = exa.load_config(exa.neighbor_text(families=fams, body=text))
+                        routes = list(list(conf.neighbors.values())[0].routes)
+                    except exa.ConfigError as e:
+                        err = str(e)
+                else:
+                    routes = list(api.api_flow(text) if c['kind'] == 'flow' else api.api_vpls(text))
+                    err = '' if routes else str(api.configuration.error)
+            except Exception as e:  # noqa
+                err = f'{type(e).__name__}: {e}'
+                res.count(f'refused-by-exception:{type(e).__name__}')
+                wit['exception'] = err[:200]
+            accepted = bool(routes)
+            wit['error'] = err[-300:]
+            if c['legal'] is True and not accepted:
+                res.violation(f'C18/legal-refused:{c["field"]}:{c["pos"]}', f'{surface}: RFC-legal definition refused: {err[-160:]!r}', wit, cls)
+                continue
+            if c['legal'] is False and accepted:
+                res.violation(f'C18/illegal-accepted:{c["field"]}:{c["pos"]}', f'{surface}: a value the wire cannot hold was accepted', dict(wit, routes=[str(x) for x in routes][:2]), cls)
+                continue
+            if not accepted:
+                if surface == 'config' and c['legal'] is False and 'line' not in err.lower():
+                    res.violation(f'C18/error-without-line:{c["field"]}', f'configuration error does not name the line: {err[-120:]!r}', wit, cls)
+                else:
+                    res.ok(cls, (c['field'], c['pos'], surface, 'refused'))
+                continue
+            # accepted: encodes without raising, and the wire carries the values as written
+            try:
+                x = routes[0]
+                raws = list(UpdateCollection([RoutedNLRI(x.nlri, x.nexthop)], [], x.attributes).messages(neg))
+                packed = bytes(x.nlri.pack_nlri(neg))
+            except Exception as e:  # noqa
+                res.violation(f'C18/encode-raises:{c["field"]}:{type(e).__name__}', f'accepted definition cannot be encoded: {type(e).__name__}: {str(e)[:120]}', wit, cls)
+                continue
+            if not raws:
+                res.violation(f'C18/accepted-but-nothing-sent:{c["field"]}:{c["pos"]}', 'accepted definition produces no UPDATE', wit, cls)
+                continue
+            wit['nlri'] = packed.hex()
+            try:
+                if c['kind'] == 'vpls':
+                    got = vpls_decode(packed)
+                    want = c['vals']
+                    bad = [k for k in ('endpoint', 'offset', 'size', 'base') if got[k] != want[k]]
+                    if bad:
+                        res.violation(f'C18/not-as-written:{c["field"]}', f'VPLS {bad[0]} on the wire {got[bad[0]]}, written {want[bad[0]]}', dict(wit, wire=got), cls)
+                        continue
+                else:
+                    rule, rest = rf.dec_nlri(1, 133, packed)
+                    comp = dict(rule['comps']).get(c['ctype'])
+                    vals = [op[2] for op in comp] if comp else None
+                    written = c.get('values', [c.get('value')])
+                    if vals != written or rest:
+                        res.violation(f'C18/not-as-written:{c["field"]}', f'{c["kw"]} on the wire {str(vals)[:80]} (+{len(rest)} octets left over), written {str(written)[:80]}', dict(wit, wire=str(rule)[:300]), cls)
+                        continue
+                    if 'values' in c:
+                        res.count(f'flow-nlri-length:{rule["length"]}')
+                    if c['field'] == 'flow-action':
+                        want = action_expected(c['then'])
+                        ecs = []
+                        for attr in x.attributes.values():
+                            fl, code, value, _ = rf.dec_path_attribute(bytes(attr.pack_attribute(neg)))
+                            if code == 16:
+                                ecs += [value[i : i + 8].hex() for i in range(0, len(value), 8)]
+                        strip = lambda h: h[:4] + h[8:] if h[:4] in ('8006', '800c') else h  # noqa: E731  (the AS of traffic-rate is informational)
+                        if want is not None and strip(want) not in [strip(e) for e in ecs]:
+                            res.violation(f'C18/not-as-written:flow-action:{c["then"].split()[0]}', f'action {c["then"]!r}: extended communities on the wire {ecs}, RFC form {want}', wit, cls)
+                            continue
+            except (rf.RefFlowError, ValueError, rw.RefError) as e:
+                res.violation(f'C18/not-as-written:{c["field"]}:undecodable', f'the NLRI ExaBGP sends for the accepted definition does not decode: {e}', wit, cls)
+                continue
+            if c['legal'] is None:
+                res.count(f'beyond-rfc-range-accepted-and-carried:{c["field"]}')
+            res.ok(cls, (c['field'], c['pos'], surface, 'accepted'))
+            res.ok('flow-vpls-carried-as-written')
+
+
 SESSIONS = [
     {'ibgp': False, 'las': 65000, 'peer_asn4': True, 'addpath': 0, 'extmsg': False},
     {'ibgp': False, 'las': 65000, 'peer_asn4': False, 'addpath': 0, 'extmsg': False},
@@ -239,11 +438,17 @@ def run_shard(desc):
                 res.ok(cls, (case['field'], case['pos'], surface, 'accepted'))
                 res.ok('encoded-under-all-sessions')
         res.sample({'text': case['text'], 'legal': case['legal']}, limit=4)
+    try:
+        run_flow_vpls(res, desc)
+    except Exception as e:  # noqa
+        import traceback
+
+        res.inconclusive.append('flow/vpls part raised: ' + traceback.format_exc()[-500:])
     return res
 
 
 def finish(merged, tier, seed):
     fields = {c.split(':')[0] for c in merged['classes']}
-    need = {'mask', 'as-path', 'med', 'local-preference', 'community', 'large-community', 'label', 'rd', 'structure', 'grammar', 'aggregator-asn', 'origin', 'path-information'}
+    need = {'flow-port', 'flow-action', 'vpls-base', 'vpls-endpoint', 'mask', 'as-path', 'med', 'local-preference', 'community', 'large-community', 'label', 'rd', 'structure', 'grammar', 'aggregator-asn', 'origin', 'path-information'}
     if not need <= fields:
         merged['inconclusive'].append(f'fields never judged: {sorted(need - fields)}')
